@@ -63,8 +63,13 @@ Definition call_result (needs_write : bool) (f : option fault) : outcome :=
 (* one candidate-capable node: API facts (taint on the Node, DisruptionReason condition and
    deletionTimestamp on the NodeClaim) and cluster-state facts (markedForDeletion field, and whether
    the cached NodeClaim copy already shows the deletionTimestamp) *)
+(* the Node object of a candidate-capable node: present; present with a deletionTimestamp (the termination
+   controller is at work); gone from the API and from the cluster state while the NodeClaim remains *)
+Inductive nobj := NPresent | NDeleting | NGone.
+
 Record node := mkNode { n_taint : bool; n_cond : bool; n_del : bool; n_mark : bool; n_stdel : bool;
-                        n_gone : bool   (* Node and NodeClaim are gone from the API and from the cluster state *) }.
+                        n_gone : bool;  (* Node and NodeClaim are gone from the API and from the cluster state *)
+                        n_obj : nobj }.
 
 (* one replacement NodeClaim: exists in the API, has (ever) reported Initialized, has a provider id,
    is known to the cluster state (Cluster.NodeClaimExists) *)
@@ -84,8 +89,8 @@ Record state := mkState {
   s_next : nat                      (* id of the next command *)
 }.
 
-Definition node0 := mkNode false false false false false false.
-Definition gone_node := mkNode false false false false false true.
+Definition node0 := mkNode false false false false false false NPresent.
+Definition gone_node := mkNode false false false false false true NGone.
 Definition repl0 := mkRepl false false false false.
 
 Definition init (n : nat) : state := mkState n (fun _ => node0) [] [] (fun _ _ => repl0) 0%Z 0.
@@ -94,11 +99,14 @@ Definition upd {A} (f : nat -> A) (k : nat) (v : A) : nat -> A := fun x => if x 
 Definition upd2 {A} (f : nat -> nat -> A) (k j : nat) (v : A) : nat -> nat -> A :=
   fun x y => if (x =? k) && (y =? j) then v else f x y.
 
-Definition set_taint (x : node) b := mkNode b (n_cond x) (n_del x) (n_mark x) (n_stdel x) (n_gone x).
-Definition set_cond (x : node) b := mkNode (n_taint x) b (n_del x) (n_mark x) (n_stdel x) (n_gone x).
-Definition set_del (x : node) b := mkNode (n_taint x) (n_cond x) b (n_mark x) (n_stdel x) (n_gone x).
-Definition set_mark (x : node) b := mkNode (n_taint x) (n_cond x) (n_del x) b (n_stdel x) (n_gone x).
-Definition set_stdel (x : node) b := mkNode (n_taint x) (n_cond x) (n_del x) (n_mark x) b (n_gone x).
+Definition set_taint (x : node) b := mkNode b (n_cond x) (n_del x) (n_mark x) (n_stdel x) (n_gone x) (n_obj x).
+Definition set_cond (x : node) b := mkNode (n_taint x) b (n_del x) (n_mark x) (n_stdel x) (n_gone x) (n_obj x).
+Definition set_del (x : node) b := mkNode (n_taint x) (n_cond x) b (n_mark x) (n_stdel x) (n_gone x) (n_obj x).
+Definition set_mark (x : node) b := mkNode (n_taint x) (n_cond x) (n_del x) b (n_stdel x) (n_gone x) (n_obj x).
+Definition set_stdel (x : node) b := mkNode (n_taint x) (n_cond x) (n_del x) (n_mark x) b (n_gone x) (n_obj x).
+Definition set_obj (x : node) o := mkNode (n_taint x) (n_cond x) (n_del x) (n_mark x) (n_stdel x) (n_gone x) o.
+Definition obj_present (x : node) : bool := match n_obj x with NPresent => true | _ => false end.
+Definition obj_gone (x : node) : bool := match n_obj x with NGone => true | _ => false end.
 
 (* StateNode.MarkedForDeletion() *)
 Definition mview (x : node) : bool := n_mark x || n_stdel x.
@@ -120,6 +128,7 @@ Inductive effect :=
 Inductive ret :=
 | Started | ErrInvalid | ErrBusy | ErrMark | ErrCreate
 | RNoCmd | RRequeue | RSucceeded | RFailed
+| RDropped     (* reconcile.AsReconciler found no NodeClaim for the request key and dropped the request *)
 | COk | CErr | CUnsynced
 | EnvOk.
 
@@ -129,7 +138,7 @@ Inductive op :=
 | Cleanup (fut fcl : fplan)
 | ReplLaunch (k j : nat) | ReplInit (k j : nat) | ReplDelApi (k j : nat) | ReplDelState (k j : nat)
 | Deliver | Advance (ms : Z) | Restart
-| CandGone (n : nat).
+| CandGone (n : nat) | NodeObjDeleting (n : nat) | NodeObjGone (n : nat).
 
 (* ------------------------------------------------------------------ StartCommand *)
 
@@ -198,7 +207,7 @@ Definition start (s : state) (cands : list nat) (nrepl : nat) (ft fc : fplan) (f
   let s0 := mkState (s_n s) (s_nodes s) (s_q s) (s_keys s) (s_repl s) (s_now s) (S k) in
   if negb (valid_cands (s_n s) cands) then (s0, (ErrInvalid, []))
   else if existsb (in_queue (s_q s)) cands then (s0, (ErrBusy, []))
-  else if existsb (fun c => n_gone (s_nodes s c)) cands then (s0, (ErrInvalid, []))   (* never a candidate (C07) *)
+  else if existsb (fun c => n_gone (s_nodes s c) || obj_gone (s_nodes s c)) cands then (s0, (ErrInvalid, []))   (* never a candidate (C07) *)
   else
     let '(nodes1, e1, marked, err) := mark_all (s_nodes s) ft fc cands in
     if err && ((0 <? nrepl) || is_nil marked) then
@@ -272,15 +281,18 @@ Fixpoint delete_all (nodes : nat -> node) (fdel : fplan) (ready : bool * bool) (
       end
   end.
 
-(* RequireNoScheduleTaint(false, nodes...) *)
+(* RequireNoScheduleTaint(false, nodes...); the taint of a Node that is being deleted is left alone (it belongs
+   to the termination controller) *)
+Definition removable (x : node) : bool := n_taint x && obj_present x.
+
 Fixpoint untaint_all (nodes : nat -> node) (fut : fplan) (cs : list nat) : (nat -> node) * list effect * bool :=
   match cs with
   | [] => (nodes, [], false)
   | c :: t =>
-      match call_result (n_taint (nodes c)) (lookup fut c) with
+      match call_result (removable (nodes c)) (lookup fut c) with
       | Applied =>
-          let '(nodes1, e, err) := untaint_all (upd nodes c (set_taint (nodes c) false)) fut t in
-          ((nodes1, (if n_taint (nodes c) then [EUntaint c] else []) ++ e), err)
+          let '(nodes1, e, err) := untaint_all (upd nodes c (set_taint (nodes c) (n_taint (nodes c) && negb (removable (nodes c))))) fut t in
+          ((nodes1, (if removable (nodes c) then [EUntaint c] else []) ++ e), err)
       | Skipped => untaint_all nodes fut t
       | Failed => let '(nodes1, e, _) := untaint_all nodes fut t in (nodes1, e, true)
       end
@@ -318,6 +330,9 @@ Definition recon (s : state) (n : nat) (fget : list (nat * gfault)) (fdel fut fc
   match find (holds_node n) (s_q s) with
   | None => (s, (RNoCmd, []))
   | Some c =>
+      (* the queue only ever enqueues the NodeClaim of cmd.Candidates[0]; reconcile.AsReconciler reads it from the
+         API first and drops the request, without a requeue, if it is gone *)
+      if n_gone (s_nodes s (hd 0 (c_cands c))) then (s, (RDropped, [])) else
       let timed := (retry_ms (s_q s) <? s_now s - c_created c)%Z in
       let '(latched', wait, vanished) := wait_loop (s_repl s (c_id c)) fget 0 (c_latched c) in
       (* the unrecoverable branch of Reconcile: untaint, clear the condition, UnmarkForDeletion, drop the command *)
@@ -350,7 +365,9 @@ Definition synced (s : state) : bool :=
 
 (* nodes of the cluster state (a node that is gone is not among them) neither in the queue nor MarkedForDeletion() *)
 Definition outdated (s : state) : list nat :=
-  filter (fun n => negb (in_queue (s_q s) n) && negb (mview (s_nodes s n)) && negb (n_gone (s_nodes s n))) (seq 0 (s_n s)).
+  filter (fun n => negb (in_queue (s_q s) n) && negb (mview (s_nodes s n)) && negb (n_gone (s_nodes s n)) &&
+                   negb (obj_gone (s_nodes s n)))   (* a StateNode without a Node is skipped by both calls *)
+         (seq 0 (s_n s)).
 
 Definition cleanup (s : state) (fut fcl : fplan) : state * (ret * list effect) :=
   if negb (synced s) then (s, (CUnsynced, []))
@@ -397,6 +414,13 @@ Definition step (s : state) (o : op) : state * (ret * list effect) :=
                            informers deliver both deletions (Cluster.DeleteNodeClaim + DeleteNode drop the StateNode with
                            its in-memory mark); the queue's map entry, if any, stays *)
       (mkState (s_n s) (upd (s_nodes s) n gone_node) (s_q s) (s_keys s) (s_repl s) (s_now s) (s_next s), (EnvOk, []))
+  | NodeObjDeleting n => (* the Node object gets a deletionTimestamp (it keeps a finalizer) *)
+      (mkState (s_n s) (upd (s_nodes s) n (if obj_present (s_nodes s n) then set_obj (s_nodes s n) NDeleting else s_nodes s n))
+               (s_q s) (s_keys s) (s_repl s) (s_now s) (s_next s), (EnvOk, []))
+  | NodeObjGone n =>     (* the Node object leaves the API and the cluster state (Cluster.DeleteNode; the in-memory
+                            mark stays with the NodeClaim-only StateNode); the NodeClaim remains *)
+      (mkState (s_n s) (upd (s_nodes s) n (if n_gone (s_nodes s n) then s_nodes s n else set_obj (set_taint (s_nodes s n) false) NGone))
+               (s_q s) (s_keys s) (s_repl s) (s_now s) (s_next s), (EnvOk, []))
   end.
 
 Fixpoint run (s : state) (ops : list op) : state :=
@@ -552,13 +576,13 @@ Definition cleanup_restores (x : ostep) : Prop :=
   let '(pre, op, o) := x in
   clean_pass op (o_ret o) = true ->
   forall n, n < length (sn_nodes pre) -> sn_owner pre n = None -> sn_mview pre n = false ->
-    n_gone (sn_fact pre n) = false ->
+    n_gone (sn_fact pre n) = false -> obj_present (sn_fact pre n) = true ->
     n_taint (sn_fact (o_snap o) n) = false /\ n_cond (sn_fact (o_snap o) n) = false.
 
 Definition cleanup_restores_b (x : ostep) : bool :=
   let '(pre, op, o) := x in
   negb (clean_pass op (o_ret o)) ||
-  forallb (fun n => match sn_owner pre n with Some _ => true | None => false end || sn_mview pre n || n_gone (sn_fact pre n) ||
+  forallb (fun n => match sn_owner pre n with Some _ => true | None => false end || sn_mview pre n || n_gone (sn_fact pre n) || negb (obj_present (sn_fact pre n)) ||
                     (negb (n_taint (sn_fact (o_snap o) n)) && negb (n_cond (sn_fact (o_snap o) n))))
           (seq 0 (length (sn_nodes pre))).
 
@@ -588,6 +612,28 @@ Definition one_cmd_per_node_b (x : ostep) : bool :=
           (seq 0 (length (sn_nodes (o_snap o)))) &&
   (negb (is_started (o_ret o)) ||
    forallb (fun n => match sn_owner pre n with None => true | Some _ => false end) (start_cands op)).
+
+(* (5) every in-flight command stays reachable: a reconcile request is dropped only for a command none of whose
+   candidates is left *)
+Definition is_dropped (r : ret) : bool := match r with RDropped => true | _ => false end.
+
+Definition cmd_reachable (x : ostep) : Prop :=
+  let '(pre, op, o) := x in
+  o_ret o = RDropped -> forall n c m, recon_node op = Some n -> In c (cmds_of pre n) -> In m (c_cands c) ->
+    n_gone (sn_fact pre m) = true.
+
+Definition cmd_reachable_b (x : ostep) : bool :=
+  let '(pre, op, o) := x in
+  negb (is_dropped (o_ret o)) ||
+  match recon_node op with
+  | Some n => forallb (fun c => forallb (fun m => n_gone (sn_fact pre m)) (c_cands c)) (cmds_of pre n)
+  | None => true
+  end.
+
+(* the candidate whose NodeClaim the queue enqueued is still there *)
+Definition head_alive (x : ostep) : Prop :=
+  let '(pre, op, _) := x in
+  forall n c, recon_node op = Some n -> In c (cmds_of pre n) -> n_gone (sn_fact pre (hd 0 (c_cands c))) = false.
 
 (* ------------------------------------------------------------------ guards of the partial theorems *)
 
